@@ -6,7 +6,7 @@ from common import *
 ALL_ACTIONS = ["Encode", "Encrypt", "EncryptZero", "Expand", "Decrypt", "Negate", "Add", "Sub", "Multiply", "Square",
                "Relin", "AddPlain", "SubPlain", "MulPlain", "ToNtt", "FromNtt", "PlainToNtt", "ModSwitchNext",
                "ModSwitchTo", "RescaleNext", "RescaleTo", "ModSwitchPlainNext", "ModSwitchPlainTo", "Galois",
-               "Rotate", "Conj", "Corrupt", "EncryptOther", "KeySwitch"]
+               "Rotate", "Conj", "Corrupt", "EncryptOther", "KeySwitch"]   # (AddMany / MultiplyMany only in dedicated instances: 30 operand lists each)
 
 
 def tla_seq(xs):
@@ -143,7 +143,9 @@ def typekey_of_step(step, prekey):
     for f in ("a", "b", "p"):
         if a[f]:
             ops.append(tuple(map(str, pool[a[f]])))
-    return json.dumps([a["op"], a["lvl"], a["mode"], a["m"], a["e"], a["g"], a["s"], a["f"], ops, a["a"] == a["b"], step["dst"] == a["a"]])
+    for o in a.get("ops", []):
+        ops.append(tuple(map(str, pool[o])))
+    return json.dumps([a["op"], a["lvl"], a["mode"], a["m"], a["e"], a["g"], a["s"], a["f"], ops, a["a"] == a["b"], step["dst"] == a["a"], len(set(a.get("ops", [])))])
 
 
 class Graph:
